@@ -41,7 +41,7 @@ Definition parse_key (ts : list tok) : option (key * list tok) :=
   | [] => None
   end.
 
-Definition is_int_ty (t : ty) : option (bool * nat) := match t with TInt sg w => Some (sg, w) | _ => None end.
+Definition is_int_ty (t : ty) : option (bool * nat) := match t with Codec.TInt sg w => Some (sg, w) | _ => None end.
 
 Definition named_ty (s : list Z) : option ty :=
   if zs_eqb s (zs_of_string "IPAddress") then Some TIPAddr
@@ -59,15 +59,15 @@ Fixpoint parse_ty (fuel : nat) (ts : list tok) : option (ty * list tok) :=
       match ts with
       | TSym s :: r =>
           if zs_eqb s (zs_of_string "nbytes") then
-            match r with TInt n :: r1 => Some (TNBytes n, r1) | _ => None end
+            match r with Proto.TInt n :: r1 => Some (TNBytes n, r1) | _ => None end
           else if zs_eqb s (zs_of_string "arr") then
             match r with
-            | TInt n :: r1 => match parse_ty f r1 with Some (e, r2) => Some (TArrFixed (Z.to_nat n) e, r2) | None => None end
+            | Proto.TInt n :: r1 => match parse_ty f r1 with Some (e, r2) => Some (TArrFixed (Z.to_nat n) e, r2) | None => None end
             | _ => None
             end
           else if zs_eqb s (zs_of_string "arrp") then
             match r with
-            | TInt i :: r1 =>
+            | Proto.TInt i :: r1 =>
                 match parse_ty f r1 with
                 | Some (lt, r2) => match parse_ty f r2 with Some (e, r3) => Some (TArrPrefix (negb (i =? 0)) lt e, r3) | None => None end
                 | None => None
@@ -78,7 +78,7 @@ Fixpoint parse_ty (fuel : nat) (ts : list tok) : option (ty * list tok) :=
             match parse_ty f r with Some (e, r1) => Some (TArrAll e, r1) | None => None end
           else if zs_eqb s (zs_of_string "struct") then
             match r with
-            | TInt k :: r1 =>
+            | Proto.TInt k :: r1 =>
                 match parse_n (fun ts => match parse_key ts with
                                          | Some (key, r) => match parse_ty f r with Some (t, r') => Some ((key, t), r') | None => None end
                                          | None => None
@@ -90,7 +90,7 @@ Fixpoint parse_ty (fuel : nat) (ts : list tok) : option (ty * list tok) :=
             end
           else if zs_eqb s (zs_of_string "fss") then
             match r with
-            | TInt cap :: r1 =>
+            | Proto.TInt cap :: r1 =>
                 match parse_ty f r1 with
                 | Some (lt, r2) => match is_int_ty lt with Some (sg, w) => Some (TFixedStr (Z.to_nat cap) sg w, r2) | None => None end
                 | None => None
@@ -99,20 +99,20 @@ Fixpoint parse_ty (fuel : nat) (ts : list tok) : option (ty * list tok) :=
             end
           else if zs_eqb s (zs_of_string "stag") then
             match r with
-            | TInt k :: r1 =>
+            | Proto.TInt k :: r1 =>
                 match parse_n (fun ts => match parse_key ts with
-                                         | Some (key, TInt off :: r) =>
+                                         | Some (key, Proto.TInt off :: r) =>
                                              match parse_ty f r with Some (t, r') => Some (((key, Z.to_nat off), t), r') | None => None end
                                          | _ => None
                                          end) (Z.to_nat k) r1 with
-                | Some (ms, TInt nb :: r2) =>
+                | Some (ms, Proto.TInt nb :: r2) =>
                     match parse_n (fun ts => match ts with
-                                             | TText n :: TInt off :: TInt bit :: r => Some ((n, (Z.to_nat off, Z.to_nat bit)), r)
+                                             | TText n :: Proto.TInt off :: Proto.TInt bit :: r => Some ((n, (Z.to_nat off, Z.to_nat bit)), r)
                                              | _ => None
                                              end) (Z.to_nat nb) r2 with
-                    | Some (bits, TInt np :: r3) =>
+                    | Some (bits, Proto.TInt np :: r3) =>
                         match parse_n (fun ts => match ts with TText n :: r => Some (n, r) | _ => None end) (Z.to_nat np) r3 with
-                        | Some (priv, TInt size :: r4) => Some (TStructTag ms bits priv (Z.to_nat size), r4)
+                        | Some (priv, Proto.TInt size :: r4) => Some (TStructTag ms bits priv (Z.to_nat size), r4)
                         | _ => None
                         end
                     | _ => None
@@ -131,28 +131,28 @@ Fixpoint parse_val (fuel : nat) (ts : list tok) : option (val * list tok) :=
   | O => None
   | S f =>
       match ts with
-      | TInt z :: r => Some (VInt z, r)
+      | Proto.TInt z :: r => Some (VInt z, r)
       | TText s :: r => Some (VStr s, r)
       | TBytes b :: r => Some (VBytes b, r)
       | TSym s :: r =>
           if zs_eqb s (zs_of_string "N") then Some (VNone, r)
           else if zs_eqb s (zs_of_string "T") then Some (VBool true, r)
           else if zs_eqb s (zs_of_string "F") then Some (VBool false, r)
-          else if zs_eqb s (zs_of_string "f") then match r with TInt b :: r1 => Some (VFloat b, r1) | _ => None end
+          else if zs_eqb s (zs_of_string "f") then match r with Proto.TInt b :: r1 => Some (VFloat b, r1) | _ => None end
           else if zs_eqb s (zs_of_string "c") then match r with TSym n :: r1 => Some (VType n, r1) | _ => None end
           else if zs_eqb s (zs_of_string "l") then
             match r with
-            | TInt k :: r1 => match parse_n (parse_val f) (Z.to_nat k) r1 with Some (l, r2) => Some (VList l, r2) | None => None end
+            | Proto.TInt k :: r1 => match parse_n (parse_val f) (Z.to_nat k) r1 with Some (l, r2) => Some (VList l, r2) | None => None end
             | _ => None
             end
           else if zs_eqb s (zs_of_string "t") then
             match r with
-            | TInt k :: r1 => match parse_n (parse_val f) (Z.to_nat k) r1 with Some (l, r2) => Some (VTuple l, r2) | None => None end
+            | Proto.TInt k :: r1 => match parse_n (parse_val f) (Z.to_nat k) r1 with Some (l, r2) => Some (VTuple l, r2) | None => None end
             | _ => None
             end
           else if zs_eqb s (zs_of_string "d") then
             match r with
-            | TInt k :: r1 =>
+            | Proto.TInt k :: r1 =>
                 match parse_n (fun ts => match parse_key ts with
                                          | Some (key, r) => match parse_val f r with Some (v, r') => Some ((key, v), r') | None => None end
                                          | None => None
@@ -173,25 +173,25 @@ Fixpoint print_val (v : val) : list tok :=
   match v with
   | VNone => [sym "N"]
   | VBool b => [sym (if b then "T" else "F")]
-  | VInt z => [TInt z]
-  | VFloat b => [sym "f"; TInt b]
+  | VInt z => [Proto.TInt z]
+  | VFloat b => [sym "f"; Proto.TInt b]
   | VStr s => [TText s]
   | VBytes b => [TBytes b]
-  | VList l => sym "l" :: TInt (zlen l) :: flat_map print_val l
-  | VTuple l => sym "t" :: TInt (zlen l) :: flat_map print_val l
-  | VDict d => sym "d" :: TInt (zlen d) :: flat_map (fun kv => print_key (fst kv) :: print_val (snd kv)) d
+  | VList l => sym "l" :: Proto.TInt (zlen l) :: flat_map print_val l
+  | VTuple l => sym "t" :: Proto.TInt (zlen l) :: flat_map print_val l
+  | VDict d => sym "d" :: Proto.TInt (zlen d) :: flat_map (fun kv => print_key (fst kv) :: print_val (snd kv)) d
   | VType n => [sym "c"; TSym n]
   end.
 
 Definition print_enc (t : ty) (v : val) (r : res bytes) : list tok :=
   match r with
-  | Ok bs => [sym "ok"; TInt (encode_result_kind t v); TBytes bs]
-  | Err e => [sym "err"; TInt (exn_code e)]
+  | Ok bs => [sym "ok"; Proto.TInt (encode_result_kind t v); TBytes bs]
+  | Err e => [sym "err"; Proto.TInt (exn_code e)]
   end.
 Definition print_dres (r : dres) : list tok :=
   match r with
   | DOk v rest => sym "ok" :: print_val v ++ [TBytes rest]
-  | DErr e => [sym "err"; TInt (exn_code e)]
+  | DErr e => [sym "err"; Proto.TInt (exn_code e)]
   | DEmpty rest => [sym "empty"; TBytes rest]
   | DOutOfFuel => [sym "fuel"]
   end.
@@ -209,7 +209,7 @@ Definition handle (ts : list tok) : list tok :=
             match parse_val fuel r1 with Some (v, []) => print_enc t v (encode t v) | _ => bad end
           else if is_sym "enca" cmd then
             match r1 with
-            | TInt k :: r2 =>
+            | Proto.TInt k :: r2 =>
                 match parse_n (parse_val fuel) (Z.to_nat k) r2 with
                 | Some (args, []) => print_enc t (match args with [v] => v | _ => VNone end) (encode_args t args)
                 | _ => bad
@@ -219,16 +219,16 @@ Definition handle (ts : list tok) : list tok :=
           else if is_sym "dec" cmd then
             match r1 with [TBytes bs] => print_dres (decode_fuel (S (length bs)) t bs) | _ => bad end
           else if is_sym "decf" cmd then
-            match r1 with [TInt f; TBytes bs] => print_dres (decode_fuel (Z.to_nat f) t bs) | _ => bad end
+            match r1 with [Proto.TInt f; TBytes bs] => print_dres (decode_fuel (Z.to_nat f) t bs) | _ => bad end
           else if is_sym "decl" cmd then
             match parse_val fuel r1 with
             | Some (len, [TBytes bs]) => print_dres (decode_len_fuel (S (length bs)) t len bs)
             | _ => bad
             end
           else if is_sym "wf" cmd then
-            match r1 with [] => [TInt (if wf_ty t then 1 else 0)] | _ => bad end
+            match r1 with [] => [Proto.TInt (if wf_ty t then 1 else 0)] | _ => bad end
           else if is_sym "dom" cmd then
-            match parse_val fuel r1 with Some (v, []) => [TInt (if in_dom t v then 1 else 0)] | _ => bad end
+            match parse_val fuel r1 with Some (v, []) => [Proto.TInt (if in_dom t v then 1 else 0)] | _ => bad end
           else if is_sym "norm" cmd then
             match parse_val fuel r1 with Some (v, []) => print_val (norm t v) | _ => bad end
           else bad
